@@ -157,6 +157,56 @@ _mk_schedule_task(False)
 _mk_schedule_task(True)
 
 
+# ---------------------------------------------------------------- Scheduler.schedule called on a thread that is not the scheduler's
+
+class ForeignThread(object):
+  pass
+
+
+def _mk_schedule_from_a_foreign_thread(have_default):
+  def u(b):
+    hub, hub2 = b.raw_new(Hub), b.raw_new(Hub)
+    other = b.raw_new(BaseTask, priority=1, id=7)
+    task = b.raw_new(BaseTask, priority=1, id=8)
+    own_thread = b.raw_new(ForeignThread)
+    s = b.raw_new(Scheduler, _ready=b.deque([other]), _selectHub=hub, _hasQuit=False, _allDone=False, _thread=own_thread)
+    # another scheduler that happens to be the process-wide default one (or no default at all): the hand-off must not go there
+    d = b.raw_new(Scheduler, _ready=b.deque([]), _selectHub=hub2, _hasQuit=False, _allDone=False, _thread=None) if have_default else None
+    first = b.bool("first")
+    cs = {}
+    if b.mode == "sym":
+      b.st.ghost["log"] = ()
+      b.st.ghost[("$global", "pox.lib.recoco.recoco", "defaultScheduler")] = d
+      caller = b.raw_new(ForeignThread)
+      cs = {"threading:current_thread": CallSpec("assumed", returns=lambda I, st, a, k: caller,
+                                                 envelope="called on a thread that is not the scheduler's"),
+            "contracts.c06_scheduler:Hub.break_idle": Logger("break_idle", "wakes the select hub")}
+    else:
+      from contracts.c06_scheduler import LOG
+      del LOG[:]
+      R.defaultScheduler = d
+    def run(s):
+      r = s.schedule(task, first)
+      mine = [t for t in s._ready]
+      theirs = [t for t in d._ready] if d is not None else []
+      return (r, mine, theirs)
+    from contracts.c06_scheduler import log as slog
+    return Case(run, [s], calls=cs, raises={}, ensures={
+      "the_task_itself_is_not_touched_by_the_foreign_thread": lambda res: all([t is not task for t in res[1]]) and res[1][0] is other,
+      "a_helper_task_carrying_the_request_is_queued_once_on_THIS_scheduler":
+        lambda res: len(res[1]) == 2 and type(res[1][1]) is ScheduleTask and res[1][1]._scheduler is s and res[1][1]._task is task,
+      "nothing_is_queued_on_any_other_scheduler": lambda res: res[2] == [],
+      "this_scheduler_is_woken": lambda res: [e[0] for e in slog(b)] == ["break_idle"],
+    })
+  u.__name__ = "schedule_from_a_foreign_thread_%s" % ("another_default_scheduler" if have_default else "no_default_scheduler")
+  u.bound = "one other ready task"
+  unit(P, target=RC + "Scheduler.schedule / BaseTask.start")(u)
+
+
+_mk_schedule_from_a_foreign_thread(True)
+_mk_schedule_from_a_foreign_thread(False)
+
+
 # ---------------------------------------------------------------- Synchronizer / SyncTask
 
 class LockStub(object):
